@@ -41,6 +41,10 @@ def conc_runs(tier, seed):
             runs.append({"name": f"conc-{cfgname}-{ctag}-{s}", "timeout": 600,
                          "args": ["-mode", "conc", "-config", cfgname, "-cache", cache, "-seed", seed * 100 + s, "-hist", 2 if tier == "quick" else 4,
                                   "-batches", 40, "-readers", 8, "-rank", 1]})
+        # the same on a slow disk (storage reads of the write transaction take 0.3 ms): the batches stay open longer
+        runs.append({"name": f"conc-kitchen-slowdisk-{s}", "timeout": 600,
+                     "args": ["-mode", "conc", "-config", "kitchen", "-cache", "-1", "-slowget-us", 300, "-seed", seed * 100 + 20 + s,
+                              "-hist", 2, "-batches", 30, "-readers", 8, "-rank", 1]})
         # a second shard on the same bounded cache manager receives a write stream too (multi-shard node)
         runs.append({"name": f"conc-other-{s}", "timeout": 600,
                      "args": ["-mode", "conc", "-other", "-config", "kitchen", "-nids", 200, "-cache", "2000000", "-seed", seed * 100 + 30 + s,
